@@ -1049,3 +1049,75 @@ Proof.
   intros vt a b H. unfold conforms_v, protocol, trace in *. rewrite trace_from_app in H.
   exact (proto_from_app _ _ _ H).
 Qed.
+
+(* ---- reading the boolean observations as equalities ------------------------------------------------ *)
+
+Lemma rout_eqb_eq : forall a b, rout_eqb a b = true -> a = b.
+Proof.
+  intros [|v i|i|x] [|w j|j|y]; cbn [rout_eqb]; intros H; try discriminate; try reflexivity.
+  - apply andb_true_iff in H. destruct H as [H1 H2].
+    assert (v = w).
+    { destruct v as [v|], w as [w|]; cbn [optver_eqb] in H1; try discriminate; [|reflexivity].
+      apply ver_eqb_eq in H1. subst. reflexivity. }
+    assert (i = j).
+    { destruct i as [i|], j as [j|]; cbn [optnat_eqb] in H2; try discriminate; [|reflexivity].
+      apply Nat.eqb_eq in H2. subst. reflexivity. }
+    subst. reflexivity.
+  - apply Nat.eqb_eq in H. subst. reflexivity.
+  - apply Bool.eqb_prop in H. subst. reflexivity.
+Qed.
+
+Lemma obs_final_get : forall n v early fout out,
+  obs_final n v (OGet n early fout, out) = true -> out = RVal (Some v) None.
+Proof.
+  intros n v early fout out H. unfold obs_final in H. cbn [fst snd] in H. rewrite Nat.eqb_refl in H.
+  exact (rout_eqb_eq _ _ H).
+Qed.
+
+Lemma obs_final_begin : forall n v out,
+  obs_final n v (OBegin n, out) = true -> out = RVal (Some v) None.
+Proof.
+  intros n v out H. unfold obs_final in H. cbn [fst snd] in H. rewrite Nat.eqb_refl in H.
+  exact (rout_eqb_eq _ _ H).
+Qed.
+
+Lemma obs_final_creating : forall n v out,
+  obs_final n v (OIsCreating n, out) = true -> out = RBool false.
+Proof.
+  intros n v out H. unfold obs_final in H. cbn [fst snd] in H. rewrite Nat.eqb_refl in H.
+  exact (rout_eqb_eq _ _ H).
+Qed.
+
+(* every entry before the first op that does something for n again satisfies obs_forgotten *)
+Lemma forgotten_from_spec : forall n tr,
+  forgotten_from n tr = true ->
+  forall a e b, tr = a ++ e :: b -> forallb (fun x => negb (introduces n (fst x))) a = true ->
+  obs_forgotten n e = true.
+Proof.
+  intros n tr H a. revert tr H. induction a as [|x a IH]; intros tr H e b Heq Ha.
+  - subst tr. cbn [app forgotten_from] in H. apply andb_true_iff in H. apply H.
+  - subst tr. rewrite <- app_comm_cons in H. cbn [forgotten_from] in H. cbn [forallb] in Ha.
+    apply andb_true_iff in Ha. destruct Ha as [Hx Ha]. apply negb_true_iff in Hx. rewrite Hx in H.
+    apply andb_true_iff in H. destruct H as [_ H]. exact (IH _ H e b eq_refl Ha).
+Qed.
+
+Lemma obs_forgotten_get : forall n early fout out,
+  obs_forgotten n (OGet n early fout, out) = true -> out = RVal None None.
+Proof.
+  intros n early fout out H. unfold obs_forgotten in H. cbn [fst snd] in H. rewrite Nat.eqb_refl in H.
+  exact (rout_eqb_eq _ _ H).
+Qed.
+
+Lemma obs_forgotten_begin : forall n out,
+  obs_forgotten n (OBegin n, out) = true -> out = RVal None None.
+Proof.
+  intros n out H. unfold obs_forgotten in H. cbn [fst snd] in H. rewrite Nat.eqb_refl in H.
+  exact (rout_eqb_eq _ _ H).
+Qed.
+
+Lemma obs_forgotten_creating : forall n out,
+  obs_forgotten n (OIsCreating n, out) = true -> out = RBool false.
+Proof.
+  intros n out H. unfold obs_forgotten in H. cbn [fst snd] in H. rewrite Nat.eqb_refl in H.
+  exact (rout_eqb_eq _ _ H).
+Qed.
